@@ -129,9 +129,21 @@ def _mk(pose):
 
 
 def _pose_err(mol, pose):
+    """Pose error as seen through EVERY public accessor of the orientation (rotator, matrix, quaternion, rotation vector,
+    axes): they must all describe the pose the specification prescribes, at every step of a session."""
+    from scipy.spatial.transform import Rotation
+
     p = np.array(pose["p"], dtype=float) / float(pose["den"])
     dp = float(np.max(np.abs(np.asarray(mol.pos[0], dtype=float) - p)))
-    return dp, _angle(mol.rotator[0], rot_from_spec(pose["R"]))
+    R = rot_from_spec(pose["R"])
+    da = _angle(mol.rotator[0], R)
+    da = max(da, _angle(Rotation.from_matrix(np.asarray(mol.matrix())[0]), R))
+    da = max(da, _angle(Rotation.from_quat(np.asarray(mol.quaternion())[0]), R))
+    da = max(da, _angle(Rotation.from_rotvec(np.asarray(mol.rotvec())[0]), R))
+    axes = np.stack([np.asarray(mol.z)[0], np.asarray(mol.y)[0], np.asarray(mol.x)[0]], axis=1)   # columns = images of the unit vectors
+    if np.max(np.abs(axes - R.as_matrix())) > 1e-4:
+        da = max(da, 90.0)
+    return dp, da
 
 
 def replay_program(case) -> dict:
